@@ -71,3 +71,12 @@ Proof.
   split; [exact GateWitness.uniq_E|]. split; [exact GateWitness.prefix_free_E|].
   split; [exact GateExamples.now_accepts_regress_only|apply GateWitness.follows_E].
 Qed.
+
+Example C16_single_fault_example :
+  uniq GateWitness.E_dot /\ prefix_free GateWitness.E_dot /\
+  (exists p, In p GateWitness.E_dot /\ ~ follows_obs_pkg GateWitness.E_dot p) /\
+  gate GateWitness.E_dot = false.
+Proof.
+  split; [exact GateWitness.uniq_E_dot|]. split; [exact GateWitness.prefix_free_E_dot|].
+  split; [exact GateWitness.breaks_rule_E_dot|]. vm_compute. reflexivity.
+Qed.
